@@ -357,3 +357,49 @@ Qed.
 
 Lemma zrange_nth_none : forall n i, (Z.to_nat n <= i)%nat -> nth_error (zrange n) i = None.
 Proof. intros. apply nth_error_None. now rewrite zrange_length. Qed.
+
+Lemma NoDup_app_singleton : forall {A} (l : list A) x, NoDup l -> ~ In x l -> NoDup (l ++ [x]).
+Proof.
+  intros A l x Hnd Hn. induction Hnd as [|y l Hy Hnd IH]; cbn.
+  - constructor; [intros []|constructor].
+  - constructor.
+    + intros Hi. apply in_app_or in Hi. destruct Hi as [Hi|[<-|[]]]; [contradiction|]. apply Hn. now left.
+    + apply IH. intros Hi. apply Hn. now right.
+Qed.
+
+(* ---------- set_nth ---------- *)
+
+Lemma set_nth_spec : forall {A} (l : list A) i v l',
+  set_nth i v l = Some l' ->
+  length l' = length l /\ forall j, nth_error l' j = if Nat.eqb j i then Some v else nth_error l j.
+Proof.
+  induction l as [|x l IH]; intros i v l' H; [destruct i; discriminate|].
+  destruct i as [|i]; cbn in H.
+  - injection H as <-. split; [reflexivity|]. intros [|j]; reflexivity.
+  - destruct (set_nth i v l) as [r|] eqn:E; [|discriminate]. injection H as <-.
+    destruct (IH _ _ _ E) as [Hl Hn]. split; [cbn; now rewrite Hl|].
+    intros [|j]; cbn; [reflexivity|apply Hn].
+Qed.
+
+Lemma set_nth_some : forall {A} (l : list A) i v, (i < length l)%nat -> exists l', set_nth i v l = Some l'.
+Proof.
+  induction l as [|x l IH]; intros i v H; [cbn in H; lia|].
+  destruct i as [|i]; cbn; [eexists; reflexivity|].
+  destruct (IH i v ltac:(cbn in H; lia)) as [r ->]. eexists; reflexivity.
+Qed.
+
+Lemma sorted_head_zero : forall l, ssorted l -> In 0 l -> (forall k, In k l -> 0 <= k) -> exists r, l = 0 :: r.
+Proof.
+  intros [|x l] Hs Hi Hn; [destruct Hi|].
+  inversion Hs as [|? ? _ Hf]; subst. destruct Hi as [->|Hi]; [eexists; reflexivity|].
+  rewrite Forall_forall in Hf. specialize (Hf _ Hi). specialize (Hn x (or_introl eq_refl)). lia.
+Qed.
+
+Lemma Forall2_nth_intro : forall {A B} (R : A -> B -> Prop) l l',
+  length l = length l' ->
+  (forall i a b, nth_error l i = Some a -> nth_error l' i = Some b -> R a b) -> Forall2 R l l'.
+Proof.
+  induction l as [|x l IH]; intros l' Hlen H; destruct l' as [|y l']; try discriminate; constructor.
+  - apply (H 0%nat); reflexivity.
+  - apply IH; [cbn in Hlen; lia|]. intros i a b Ha Hb. apply (H (S i)); assumption.
+Qed.
